@@ -125,14 +125,15 @@ Proof.
   split; [intros ->; reflexivity|intros H; injection H as ->; reflexivity].
 Qed.
 
-(* "is again a reader": the answer to a derivation must be a reader; a read must not be *)
+(* "is again a reader": the answer to a derivation (an operator, or exactly reader[:, cols]) must be a
+   reader; any other indexing must not be one (a read that raises is judged by the value clause) *)
 Definition kind_ok_b (c : cmd) (obs : @out Z Z) : bool :=
   match c, obs with
   | CDerive _ _, ODerived => true
   | CDerive _ _, _ => false
   | CRead _ it (Some _), OReader => is_whole it
-  | CRead _ it (Some _), ORows _ => negb (is_whole it)
-  | CRead _ _ None, ORows _ => true
+  | CRead _ it (Some _), (ORows _ | OErr) => negb (is_whole it)
+  | CRead _ _ None, (ORows _ | OErr) => true
   | CRead _ _ _, _ => false
   end.
 
